@@ -349,6 +349,10 @@ func NewPolicyFromSource(rules string, conf *Config, meta *EnterprisePolicyMeta)
 // takesPrecedenceOver returns true when permission a
 // should take precedence over permission b
 func takesPrecedenceOver(a, b string) bool {
+	// Policy strings are accepted in any letter case when a policy is parsed
+	// (see AccessLevelFromString), so they must be compared the same way here.
+	a, b = strings.ToLower(a), strings.ToLower(b)
+
 	if a == PolicyDeny {
 		return true
 	} else if b == PolicyDeny {
